@@ -429,6 +429,8 @@ RULES = [
     ("C08.PROGRESS", "quick", rule_progress),
     ("C08.POSTFAIL", "quick", rule_postfail),
     ("C08.CONSUME", "quick", rule_consume_c08),
+    # a failed send must still end in the transport being closed: the write queue is dropped first
+    ("C08.FLUSH", "quick", borrowed("c17", "rule_flush", "C17.FLUSH", "C08.FLUSH")),
 ]
 
 
@@ -1152,16 +1154,34 @@ def rule_content_types(ctx):
         raise AnalysisError("C08.CONTENT-TYPES: ContentType.all not evaluable")
     names = {k: v for k, v in ct.items() if isinstance(v, int)}
     fi = ctx.index.func(TLSREC + "_getNextRecord")
+    # which types are handed up without touching the defragmenter: decided by walking the function for
+    # each value of header.type (condeval.outcomes, nothing is run) and asking whether add_data is reached
+    from ..condeval import outcomes
+    g = ctx.an.cfg(fi)
+    cache = {}
+
+    def ao(t):
+        if t.id not in cache:
+            cache[t.id] = dead_edge_labels(g, t, [g.exit])
+        return cache[t.id]
+
+    def is_add(st):
+        return any(call_name(c) == "add_data" for c in calls_in(st))
+    if not any(n.kind == "stmt" and n.ast is not None and is_add(n.ast) for n in g.nodes):
+        raise AnalysisError("C08.CONTENT-TYPES: Defragmenter.add_data call of _getNextRecord not found")
     passed = set()
-    for t in own_nodes(fi.node):
-        if not isinstance(t, ast.If):
-            continue
-        disj = t.test.values if isinstance(t.test, ast.BoolOp) and isinstance(t.test.op, ast.Or) else [t.test]
-        for dj in disj:
-            if isinstance(dj, ast.Compare) and norm(dj.left) == "header.type" and isinstance(dj.ops[0], ast.Eq):
-                c = attr_chain(dj.comparators[0]) or ""
-                if c.startswith("ContentType.") and c.split(".")[1] in names:
-                    passed.add(names[c.split(".")[1]])
+    memo = {}
+    for v in sorted(set(names.values())):
+        hit = False
+        for ver in ((3, 3), (3, 4)):
+            env = {"ContentType." + k: x for k, x in names.items()}
+            env.update({"header.type": v, "header.ssl2": False, "self.version": ver,
+                        "__index__": ctx.index, "__an__": ctx.an})
+            reached = set()
+            outcomes(g, fi.node, env, ao, memo, watch={"add": is_add}, reached=reached)
+            hit = hit or bool(reached)
+        if not hit:
+            passed.add(v)
     init = ctx.index.func(TLSREC + "__init__")
     framed = set()
     for c in calls_in(init.node):
@@ -1169,7 +1189,7 @@ def rule_content_types(ctx):
             a = attr_chain(c.args[0]) or ""
             if a.startswith("ContentType.") and a.split(".")[1] in names:
                 framed.add(names[a.split(".")[1]])
-    ctx.require(len(passed) >= 2 and len(framed) >= 3, "C08.CONTENT-TYPES: routes of _getNextRecord not recognised")
+    ctx.require(len(passed) >= 1 and len(framed) >= 3, "C08.CONTENT-TYPES: routes of _getNextRecord not recognised")
     for v in allv:
         ctx.check(R, v in passed or v in framed, "constants:ContentType", "content type %r has a route" % (v,),
                   "ContentType.all lists %r, which _getNextRecord neither passes through nor has a Defragmenter "
